@@ -4,6 +4,6 @@ PATCH=$1; P=$2; TIER=${3:-quick}
 cd /repo || exit 2
 if ! git diff --quiet; then echo "/repo has uncommitted changes"; exit 2; fi
 git apply $PATCH || { echo "APPLY FAILED"; exit 3; }
-(cd /verif && ./check $P --tier $TIER 2>&1 | grep -E "^(VIOLATION|KNOWN|INCONCL|HARNESS|violation:|C[0-9]+ )" | cut -c1-400 | head -${LINES_MAX:-12})
+(cd /verif && ./check $P --tier $TIER 2>&1 | grep -E "^(VIOLATION|INCONCL|HARNESS|violation:|C[0-9]+ )" | cut -c1-400 | head -${LINES_MAX:-12})
 git checkout -q -- .
 git status --short | grep -v '^??' | head -3
